@@ -547,3 +547,18 @@ def equal_hash_group(rng, size):
         if b not in out and std_hash_model(a) == std_hash_model(b):
             out.append(b)
     return out
+
+
+def equal_hash_extension(prefix16):
+    """The 24-byte word that starts with the 16-byte `prefix16` and has the SAME std::hash code as that prefix."""
+    assert len(prefix16) == 16
+    k1, k2 = int.from_bytes(prefix16[:8], 'little'), int.from_bytes(prefix16[8:], 'little')
+    def two_blocks(n):
+        h = _SEED ^ ((n * _MUL) & _M64)
+        h = ((h ^ _block(k1)) * _MUL) & _M64
+        return ((h ^ _block(k2)) * _MUL) & _M64
+    s16, h2 = two_blocks(16), two_blocks(24)
+    k3 = _unblock(((s16 * _INV_MUL) & _M64) ^ h2)
+    w = prefix16 + k3.to_bytes(8, 'little')
+    assert std_hash_model(w) == std_hash_model(prefix16)
+    return w
